@@ -134,6 +134,31 @@ def decision(name, test):
     return [DecisionOn(name, test, True), DecisionOn(name, test, False)]
 
 
+def block_in(fn_id, e):
+    """block of function `fn_id` from which event e is reached (e's own block when e is in fn_id, else the call site), or None"""
+    ids = [c[0] for c in e.ctx]
+    if fn_id not in ids:
+        return None
+    i = len(ids) - 1 - ids[::-1].index(fn_id)
+    return e.ctx[i + 1][1] if i + 1 < len(e.ctx) else e.bb
+
+
+def same_iteration(W, anchor, other):
+    """are the two events produced inside the same innermost loop of the function containing `anchor`?  None when undecidable"""
+    import accum
+    b = W.F.get(anchor.fn)
+    if b is None:
+        return None
+    bo = block_in(anchor.fn, other)
+    if bo is None or bo < 0:
+        return None
+    succ, loops = accum._loops(b)
+    inner = [l for l in sorted(loops, key=len) if anchor.bb in l]
+    if not inner:
+        return None
+    return bo in inner[0]
+
+
 def independent_of(chk, W, rule, contract, vp, label, name, test, effect, detail_ok, detail_fail, extra=()):
     """Obligation: the effect selected by `effect(A)` is not control-dependent on the decisions whose predicate satisfies `test`:
     it stays reachable whichever way those decisions go (assume them all true, then all false).  Skipped when no such decision exists."""
